@@ -706,10 +706,18 @@ pub fn def(ctx: &Ctx) -> PropertyDef {
             move || {
                 (
                     circ_spec(CircParams {
-                        min_q: 1,
-                        max_q: 4,
-                        max_gates: t.pick(24, 40),
-                        kinds: clifford_t_kinds(),
+                        min_q: 2,
+                        max_q: t.pick(5, 6),
+                        max_gates: t.pick(40, 60),
+                        // T-heavy: most T gates fuse or cancel under full_simp otherwise
+                        kinds: {
+                            let mut k = clifford_t_kinds();
+                            k.push((6, crate::oracle::csim::GK::T));
+                            k.push((3, crate::oracle::csim::GK::H));
+                            k.push((3, crate::oracle::csim::GK::Cx));
+                            k.push((1, crate::oracle::csim::GK::Ccz));
+                            k
+                        },
                         palette: Palette::ExactT,
                         max_var: 0,
                     }),
@@ -719,7 +727,8 @@ pub fn def(ctx: &Ctx) -> PropertyDef {
                 )
                     .prop_map(|(circ, ins, outs, cfg)| CircCase { circ, ins, outs, cfg })
             },
-            move |c: &CircCase, obs| check_circ_case(c, max_t, obs),
+            // the cap counts T gates before simplification; most of them fuse or cancel
+            move |c: &CircCase, obs| check_circ_case(c, 2 * max_t, obs),
         ),
         Section::random(
             "one-step",
